@@ -31,7 +31,24 @@ Insert(s, ins, index) ==
       at == Offset(i1, len, FALSE)
   IN SubSeq(s, 1, at) \o ins \o SubSeq(s, at + 1, len)
 
+\* string.split: the pieces between successive non-overlapping occurrences of sep, scanning left to right; at most `limit`
+\* separators are used (limit = 0: no bound); an empty separator splits into code points; the empty string has no pieces
+RECURSIVE Split(_, _, _)
+Split(s, sep, limit) ==
+  IF s = <<>> THEN <<>>
+  ELSE IF sep = <<>> THEN [i \in 1..Len(s) |-> <<s[i]>>]
+  ELSE LET at == IndexOfSub(s, sep) IN
+       IF at = 0 THEN <<s>>
+       ELSE LET rest == SubSeq(s, at + Len(sep), Len(s)) IN
+            <<SubSeq(s, 1, at - 1)>> \o (IF limit = 1 THEN <<rest>>
+                                         ELSE IF rest = <<>> THEN << <<>> >>
+                                         ELSE Split(rest, sep, IF limit = 0 THEN 0 ELSE limit - 1))
+RECURSIVE JoinWith(_, _)
+JoinWith(parts, sep) == IF parts = <<>> THEN <<>> ELSE IF Len(parts) = 1 THEN parts[1] ELSE parts[1] \o sep \o JoinWith(Tail(parts), sep)
+
 \* laws of the definitions
+SplitJoin(s, sep) == (s # <<>> /\ sep # <<>>) => JoinWith(Split(s, sep, 0), sep) = s     \* splitting loses nothing
+SplitLimit(s, sep, k) == (k >= 1 /\ s # <<>> /\ sep # <<>>) => Len(Split(s, sep, k)) <= k + 1
 SliceWhole(s) == Slice(s, 1, -1) = s
 SliceConcat(s, k) == (k >= 1 /\ k <= Len(s)) => Slice(s, 1, k) \o Slice(s, k + 1, -1) = s
 InsertLen(s, ins, i) == Len(Insert(s, ins, i)) = Len(s) + Len(ins)
